@@ -29,9 +29,9 @@ func (s verifSotwStream) Context() context.Context                   { return co
 func (s verifSotwStream) SendMsg(m any) error                        { return nil }
 func (s verifSotwStream) RecvMsg(m any) error                        { return nil }
 
-func verifNamesOf(in [3]bool) []string {
+func verifNamesOf(in [4]bool) []string {
 	var out []string
-	for i, n := range verifUniverse {
+	for i, n := range verifUniverse[:verifUniverseN()] {
 		if in[i] {
 			out = append(out, n)
 		}
@@ -97,7 +97,7 @@ func VerifC05DeltaReconnect() {
 		got.Insert(r.Name)
 	}
 	removed := sets.New(cdsResp[0].RemovedResources...)
-	for i, n := range verifUniverse {
+	for i, n := range verifUniverse[:verifUniverseN()] {
 		vp.Assert(got.Contains(n) == cdsExists[i], "current-clusters-are-sent")
 		if cdsRetained[i] && !cdsExists[i] {
 			vp.Assert(removed.Contains(n), "retained-but-deleted-cluster-is-removed")
@@ -118,7 +118,7 @@ func VerifC05DeltaReconnect() {
 		for _, r := range edsResps[len(edsResps)-1].Resources {
 			last.Insert(r.Name)
 		}
-		for i, n := range verifUniverse {
+		for i, n := range verifUniverse[:verifUniverseN()] {
 			vp.Assert(last.Contains(n) == (edsWanted[i] && edsExists[i]), "wanted-endpoints-are-sent")
 		}
 	}
@@ -166,7 +166,7 @@ func VerifC05SotwReconnect() {
 	vp.Assert(len(sent) == 3 && sent[2].TypeUrl == v3.EndpointType, "eds-re-request-after-cds-is-answered-for-warming")
 	if len(sent) == 3 {
 		got := 0
-		for i := range verifUniverse {
+		for i := range verifUniverse[:verifUniverseN()] {
 			if edsWanted2[i] && edsExists[i] {
 				got++
 			}
@@ -185,7 +185,7 @@ func VerifC05Twin() {
 	var sent []*discovery.DeltaDiscoveryResponse
 	proxy := &model.Proxy{ID: "p", Type: model.SidecarProxy, Metadata: &model.NodeMetadata{}, WatchedResources: map[string]*model.WatchedResource{},
 		LastPushContext: &model.PushContext{PushVersion: "v1"}}
-	s := &DiscoveryServer{Generators: map[string]model.XdsResourceGenerator{v3.ClusterType: verifGen{produce: [3]bool{true, false, false}, calls: &calls}}}
+	s := &DiscoveryServer{Generators: map[string]model.XdsResourceGenerator{v3.ClusterType: verifGen{produce: [4]bool{true, false, false}, calls: &calls}}}
 	con := &Connection{proxy: proxy, deltaStream: verifDeltaStream{sent: &sent}}
 	s.processDeltaRequest(&discovery.DeltaDiscoveryRequest{TypeUrl: v3.ClusterType, ResponseNonce: vp.String("n", 2), InitialResourceVersions: map[string]string{"a": "v"}}, con)
 	vp.Assert(len(sent) == 0, "twin")
